@@ -40,3 +40,79 @@ Definition sched_steps (cs : list case) : N :=
   N.of_nat (fold_left (fun a c => a + match snd c with Some sch => length sch | None => 0 end) cs 0).
 Definition undecided (cs : list case) : N :=
   N.of_nat (fold_left (fun a c => a + match snd c with Some _ => 0 | None => 1 end) cs 0).
+
+(* ---- second comparison: the scopes shared by routines (ScopeModel.v).  The harness generates nested let / call /
+   run forms with probes; a probe (harness builtin vchain) walks from the scope it is evaluated in through
+   Scope.Parents() and reports Scope.Synchronized() of every scope visited, in the order of the walk.  The model
+   executes the same operations (routine 0, the harness itself, starts routine 1; then every routine in turn: what
+   a probe sees does not depend on the interleaving, see docs/design/C17.md) and must predict every report.
+     0 ok;  1 reports differ, but every scope the model has synchronized is reported synchronized;
+     2 a scope that the model has synchronized - run shared it with another routine - is reported as NOT
+       synchronized: its variable map is used by two threads without a lock (the scenario is the failing input);
+     3 self-check: the generated scenario is not executable in the model or leaves its guard. ---- *)
+From C17 Require Import ScopeModel.
+
+Inductive xop := XOp (o : sop) | XObs (k : nat).
+Definition sobs := list (nat * list bool).
+Definition scase := (list (list xop) * sobs)%type.
+
+Fixpoint exec_code (st : sstate) (i : nat) (code : list xop) (acc : sobs) : option (sstate * sobs) :=
+  match code with
+  | [] => Some (st, acc)
+  | XObs k :: code' =>
+      match nth_error (stacks st) i with
+      | Some (s :: _) => exec_code st i code' (acc ++ [(k, map (synced st) (anc st s))])
+      | _ => None
+      end
+  | XOp o :: code' =>
+      if guardb st i o
+      then match sstep st i o with Some st' => exec_code st' i code' acc | None => None end
+      else None
+  end.
+Fixpoint exec_all (st : sstate) (i : nat) (codes : list (list xop)) (acc : sobs) : option sobs :=
+  match codes with
+  | [] => Some acc
+  | c :: cs => match exec_code st i c acc with Some (st', acc') => exec_all st' (S i) cs acc' | None => None end
+  end.
+
+Fixpoint flags_eqb (a b : list bool) : bool :=
+  match a, b with
+  | [], [] => true
+  | x :: a', y :: b' => Bool.eqb x y && flags_eqb a' b'
+  | _, _ => false
+  end.
+Fixpoint sobs_eqb (a b : sobs) : bool :=
+  match a, b with
+  | [], [] => true
+  | (k, f) :: a', (k', f') :: b' => Nat.eqb k k' && flags_eqb f f' && sobs_eqb a' b'
+  | _, _ => false
+  end.
+(* same shape, and wherever the model says synchronized the report says so too *)
+Fixpoint flags_cover (m o : list bool) : bool :=
+  match m, o with
+  | [], [] => true
+  | x :: m', y :: o' => (negb x || y) && flags_cover m' o'
+  | _, _ => true
+  end.
+Fixpoint sobs_cover (m o : sobs) : bool :=
+  match m, o with
+  | (_, f) :: m', (_, f') :: o' => flags_cover f f' && sobs_cover m' o'
+  | _, _ => true
+  end.
+
+Definition scheck_case (c : scase) : N :=
+  match exec_all sinit 0 (fst c) [] with
+  | None => 3%N
+  | Some expected =>
+      if sobs_eqb expected (snd c) then 0%N
+      else if sobs_cover expected (snd c) then 1%N else 2%N
+  end.
+Fixpoint scheck_all_from (i : N) (cs : list scase) : list (N * N) :=
+  match cs with
+  | [] => []
+  | c :: cs' => let r := scheck_case c in (if N.eqb r 0 then [] else [(i, r)]) ++ scheck_all_from (N.succ i) cs'
+  end.
+Definition scheck_all := scheck_all_from 0%N.
+Definition scope_probes (cs : list scase) : N := N.of_nat (fold_left (fun a c => a + length (snd c)) cs 0).
+Definition scopes_seen_synchronized (cs : list scase) : N :=
+  N.of_nat (fold_left (fun a c => a + fold_left (fun b kf => b + length (filter (fun x => x) (snd kf))) (snd c) 0) cs 0).
